@@ -1011,6 +1011,10 @@ HMCIstaccess(accrec_t *access_rec, /* IN: access record to fill in */
                 info->ddims[j].distrib_type = (int32)(0xff & info->ddims[j].flag);
                 info->ddims[j].unlimited    = (int32)(0xff & ((uint32)(info->ddims[j].flag >> 8)));
 
+                /* a chunk has at least one element along every dimension */
+                if (info->ddims[j].chunk_length <= 0)
+                    HGOTO_ERROR(DFE_INTERNAL, FAIL);
+
                 info->ddims[j].num_chunks = info->ddims[j].dim_length / info->ddims[j].chunk_length;
                 /* check to see if need to increase # of chunks along this dim*/
                 if ((odd_size = (info->ddims[j].dim_length % info->ddims[j].chunk_length)))
@@ -1028,6 +1032,11 @@ HMCIstaccess(accrec_t *access_rec, /* IN: access record to fill in */
 
             /* decode fill value length */
             INT32DECODE(p, (info->fill_val_len)); /* 4 bytes */
+
+            /* the fill value has at least one byte and lies inside the header
+               just read; anything else is a damaged (e.g. half-written) header */
+            if (info->fill_val_len <= 0 || info->fill_val_len > info->sp_tag_header_len)
+                HGOTO_ERROR(DFE_INTERNAL, FAIL);
 
             /* allocate space for fill value */
             if ((info->fill_val = malloc((size_t)info->fill_val_len)) == NULL)
